@@ -405,6 +405,10 @@ for _pid, _roots in SCOPE.items():
         continue
     PROPS[_pid]['rules'].append(partial(G.rule_numloss, roots=_roots))
     PROPS[_pid]['rules'].append(partial(G.rule_numeric_truth, roots=_roots))
+PROPS['C18']['rules'].append(partial(G.rule_ef_args, roots=[
+    (_T, 'Table.add_metadata'), (_T, 'Table.del_metadata'),
+    (_T, 'Table.add_group_metadata'), (_P, 'MetadataMap.from_file'),
+    ('biom/cli/metadata_adder.py', '_add_metadata')]))
 import json as _json  # noqa: E402
 import os as _os  # noqa: E402
 with open(_os.path.join(_os.path.dirname(_os.path.dirname(
@@ -590,25 +594,43 @@ for _pid in ('C20', 'C08', 'C11'):
     PROPS[_pid]['rules'].append(partial(
         R6.rule_warning_suppression, rels={'biom/table.py', 'biom/err.py',
                                            'biom/util.py', 'biom/parse.py'}))
-PROPS['C01']['rules'] += [R6.rule_partial_decode, R6.rule_date_whole]
-PROPS['C02']['rules'] += [R6.rule_date_whole, R6.rule_dense_flag]
+PROPS['C01']['rules'] += [R6.rule_partial_decode,
+                          partial(R6.rule_date_whole,
+                                  funcs=('Table.from_hdf5',))]
+PROPS['C02']['rules'] += [partial(R6.rule_date_whole,
+                                  funcs=('Table.from_json',)),
+                          R6.rule_dense_flag]
 PROPS['C04']['rules'] += [R6.rule_group_md_order]
-PROPS['C03']['rules'] += [R6.rule_squeeze, R6.rule_parsed_ids]
+PROPS['C03']['rules'] += [R6.rule_squeeze, R6.rule_parsed_ids,
+                          R6.rule_row_counter, R6.rule_ids_as_read]
 PROPS['C05']['rules'] += [R6.rule_new_axis_metadata, R6.rule_check_all_kinds]
 PROPS['C18']['rules'] += [R6.rule_new_axis_metadata, R6.rule_quotes_everywhere,
                           R6.rule_split_strips]
 PROPS['C10']['rules'] += [R6.rule_flag_accumulated]
 PROPS['C11']['rules'] += [R6.rule_partition_yields_all]
-PROPS['C12']['rules'] += [R6.rule_kernel_unconditional]
-PROPS['C13']['rules'] += [R6.rule_rank_methods]
-PROPS['C14']['rules'] += [R6.rule_file_ids, R6.rule_filter_order]
-PROPS['C17']['rules'] += [R6.rule_errmsg_repr, R6.rule_adjacency_header]
+PROPS['C12']['rules'] += [R6.rule_kernel_unconditional,
+                          R6.rule_cleanup_unconditional,
+                          R6.rule_id_set_raw]
+PROPS['C13']['rules'] += [R6.rule_rank_methods, R6.rule_normalize_cli_thin]
+PROPS['C14']['rules'] += [R6.rule_file_ids, R6.rule_filter_order,
+                          partial(R6.rule_filtered_stack,
+                                  funcs=('Table.from_hdf5',))]
+PROPS['C17']['rules'] += [R6.rule_errmsg_repr, R6.rule_adjacency_header,
+                          R6.rule_uc_pairs]
 PROPS['C19']['rules'] += [R6.rule_reduce_all, R6.rule_export_asis]
 PROPS['C09']['rules'] += [R6.rule_value_buffer_dtype]
 PROPS['C16']['rules'] += [R6.rule_raw_format]
+for _pid in ('C05', 'C08'):
+    PROPS[_pid]['rules'] += [R6.rule_stored_extreme_guarded]
+for _pid in ('C01', 'C04'):
+    PROPS[_pid]['rules'] += [rules_hdf5.rule_h5_group_md_axis]
+    PROPS[_pid].setdefault('rule_texts', {})
+for _pid in ('C05', 'C09'):
+    PROPS[_pid]['rules'] += [R6.rule_sorted_haystack]
 PROPS['C17']['rules'] += [R6.rule_raw_format]
-PROPS['C02']['rules'] += [R6.rule_scatter]
-PROPS['C06']['rules'] += [R6.rule_filtered_extreme, R6.rule_scatter]
+PROPS['C02']['rules'] += [R6.rule_scatter, R6.rule_null_only_for_none]
+PROPS['C06']['rules'] += [R6.rule_filtered_extreme, R6.rule_scatter,
+                          R6.rule_map_absent]
 for _pid in ('C05', 'C16', 'C19'):
     PROPS[_pid]['rules'] += [R6.rule_searchsorted_needs_sorted]
 PROPS['C03']['rules'] += [R6.rule_seek_offsets]
